@@ -36,6 +36,15 @@ pub struct Walrus {
     pub(super) fsync_schedule: FsyncSchedule,
 }
 
+impl Drop for Walrus {
+    fn drop(&mut self) {
+        // Clean/dirty markers are persisted by a background thread that only holds a weak
+        // reference and stops without writing once the instance is gone. Flush them on the
+        // dropping thread so that a change made right before shutdown survives the restart.
+        let _ = self.topic_clean_tracker.flush();
+    }
+}
+
 impl Walrus {
     pub fn new() -> std::io::Result<Self> {
         Self::with_consistency(ReadConsistency::StrictlyAtOnce)
